@@ -172,7 +172,8 @@ def tm_sec_header(service: IntRange(0, 255), subservice: IntRange(0, 255), msg: 
                               g.dest_id == dest, g.spacecraft_time_ref == tref, g.timestamp == ts))
     o = outcome(PusTmSecondaryHeader.unpack, data, tlen)
     ensures("raises-only", o.ok or o.raised(ValueError))
-    ensures("short-iff", implies(len(data) < 7 + tlen, o.raised(BytesTooShortError)))
+    ensures("short-refused", implies(len(data) < 7 + tlen, o.raised(ValueError)))
+    ensures("short-min", implies(len(data) < 7, o.raised(BytesTooShortError)))
     if len(data) >= 7 + tlen:
         ensures("version-iff", o.ok == (bits(data[0], 7, 4) == 2))
     if o.ok:
